@@ -31,10 +31,12 @@ def cases(tier):
             for comb in itertools.combinations(range(n), k):
                 for r in range(reps):
                     out.append(("sq", n, comb, r))
-                    if 2 <= n <= 3:
+                    if 2 <= n <= 4:
                         out.append(("rect", n, comb, r))
     for r in range(40 if tier == "quick" else 16000):
         out.append(("sq", 5, None, r))
+    for r in range(24 if tier == "quick" else 6000):
+        out.append(("rect", 5 if r % 3 else 6, None, r))  # rectangular operators on five and six subsystems, random subsets
     for r in range(60 if tier == "quick" else 16000):
         out.append(("realign", r))
     for r in range(40 if tier == "quick" else 4000):
@@ -151,9 +153,12 @@ def _run_sq(ctx, spec, rng):
 def _run_rect(ctx, spec, rng):
     n = spec[1]
     for _ in range(3):
-        dr = gen.dims(rng, n, 2, 4, max_total=64)
-        dc = gen.dims(rng, n, 2, 4, max_total=64)
-        s = list(spec[2])
+        cap = 64 if n <= 3 else (144 if n == 4 else 288)
+        dr = gen.dims(rng, n, 2, 4 if n <= 4 else 3, max_total=cap)
+        dc = gen.dims(rng, n, 2, 4 if n <= 4 else 3, max_total=cap)
+        s = list(spec[2]) if spec[2] is not None else sorted(int(v) for v in rng.permutation(n)[:int(rng.integers(1, n + 1))])
+        if spec[2] is None and rng.random() < 0.3:
+            s = [int(v) for v in rng.permutation(s)]
         x = gen.unique_ids((int(np.prod(dr)), int(np.prod(dc))), "ifc"[int(rng.integers(0, 3))])
         dimarg = [list(dr), list(dc)] if rng.random() < 0.6 else np.array([dr, dc])
         _common(ctx, rng, x, s, dr, dc, dimarg, n)
